@@ -172,6 +172,9 @@ func c02Run(env *core.Env, idx int) core.CaseResult {
 			res.Violate("spurious-error: "+errClass(r.Err), "every reachable $ref is resolvable, yet: "+r.Err.Error(), wit)
 			return res
 		}
+		if r.OptionsChanged != "" {
+			res.Violate("caller-options-modified", r.OptionsChanged, wit)
+		}
 		distinct[string(r.OutText)] = true
 		mm, compared := monitorMeaning(in, w.Root, r.Out, true)
 		res.Count("positions-compared", compared)
@@ -321,6 +324,9 @@ func c03Run(env *core.Env, idx int) core.CaseResult {
 		r := runExpandSpec(w, o)
 		res.Evals++
 		wit := worldWitness(w, o, nil)
+		if r.OptionsChanged != "" {
+			res.Violate("caller-options-modified", r.OptionsChanged, wit)
+		}
 		if r.Panic != "" || r.Err != nil {
 			// C02/C08 own spurious errors; nothing to inspect here
 			res.Count("expansion-failed", 1)
